@@ -101,6 +101,29 @@ Theorem c12_trait : forall v attr h t items,
 Proof. exact c12_trait_explicit. Qed.
 Print Assumptions c12_trait.
 
+(** trait with a delegation target ([#[entrait(TargetTrait, delegate_by = ..)]]): the first trait generated after
+    the re-emitted one is the target trait; its methods are the source methods with only the receiver
+    parameter rewritten ([recv] keeps asyncness and return type), passed through [make_trait_fn_sig] with the
+    user's [async_trait] attributes and the same [future_send] — so an async method returns
+    [impl Future<Output = R> [+ Send]] there exactly as in the re-emitted trait ([?Send] is honoured). *)
+Theorem c12_target_trait : forall v attr h t items,
+  expand_items v attr (InTrait h t) = Ok items ->
+  exists a0 tr ds im,
+    parse_trait_attr attr = Ok a0 /\ items = [ITrait tr] ++ map ITrait ds ++ [IImpl im] /\
+    forall n, ta_impl_trait a0 = Some n ->
+      exists td recv, hd_error ds = Some td /\ t_name td = n /\
+        (recv = static_impl_receiver \/ recv = dynamic_impl_receiver) /\
+        (forall s, s_async (recv s) = s_async s /\ s_output (recv s) = s_output s) /\
+        trait_sigs td = map (fun '(x, s) => (x, make_trait_fn_sig (recv s) (filter is_async_trait (h_attrs h))
+                                                                  (no_mock_opts (apply_variant v (ta_opts a0)))))
+                            (trait_sigs t) /\
+        future_send (no_mock_opts (apply_variant v (ta_opts a0))) = future_send (apply_variant v (ta_opts a0)) /\
+        contains_async_trait (filter is_async_trait (h_attrs h)) = contains_async_trait (h_attrs h) /\
+        c12_trait_all (contains_async_trait (h_attrs h)) (future_send (apply_variant v (ta_opts a0)))
+                      (map snd (trait_sigs t)) (map snd (trait_sigs td)) = true.
+Proof. exact c12_target_trait_explicit. Qed.
+Print Assumptions c12_target_trait.
+
 (** The predicate the checker evaluates on the implementation's output holds of every model expansion. *)
 Theorem c12_view_sound : forall v attr i items,
   expand_items v attr i = Ok items -> good (view_C12 (mkCtx v attr i) items).
